@@ -43,6 +43,7 @@ structure Alias where
   bwr : Bool
   bytecount : Nat
   kind : String
+  kindCode : Nat
   drvW : Nat
   drvH : Nat
   deriving Repr, Inhabited, DecidableEq
@@ -53,62 +54,64 @@ def kindOfName (s : String) : ColorKind :=
 def kindTag (s : String) : String :=
   if s == "TriColor" then "tri" else if s == "OctColor" then "oct" else "bw"
 
-def Alias.ck (a : Alias) : ColorKind := kindOfName a.kind
+def kindOfCode (c : Nat) : ColorKind := if c = 1 then kindTri else if c = 2 then kindOct else kindBw
+
+def Alias.ck (a : Alias) : ColorKind := kindOfCode a.kindCode
 
 def aliases : List Alias := [
   { panel := "epd1in02", w := Gen.Epd1in02.ALIAS_W, h := Gen.Epd1in02.ALIAS_H, bwr := Gen.Epd1in02.ALIAS_BWR,
-    bytecount := Gen.Epd1in02.ALIAS_BYTECOUNT, kind := Gen.Epd1in02.ALIAS_KIND, drvW := Gen.Epd1in02.WIDTH, drvH := Gen.Epd1in02.HEIGHT },
+    bytecount := Gen.Epd1in02.ALIAS_BYTECOUNT, kind := Gen.Epd1in02.ALIAS_KIND, kindCode := Gen.Epd1in02.ALIAS_KIND_CODE, drvW := Gen.Epd1in02.WIDTH, drvH := Gen.Epd1in02.HEIGHT },
   { panel := "epd1in54", w := Gen.Epd1in54.ALIAS_W, h := Gen.Epd1in54.ALIAS_H, bwr := Gen.Epd1in54.ALIAS_BWR,
-    bytecount := Gen.Epd1in54.ALIAS_BYTECOUNT, kind := Gen.Epd1in54.ALIAS_KIND, drvW := Gen.Epd1in54.WIDTH, drvH := Gen.Epd1in54.HEIGHT },
+    bytecount := Gen.Epd1in54.ALIAS_BYTECOUNT, kind := Gen.Epd1in54.ALIAS_KIND, kindCode := Gen.Epd1in54.ALIAS_KIND_CODE, drvW := Gen.Epd1in54.WIDTH, drvH := Gen.Epd1in54.HEIGHT },
   { panel := "epd1in54_v2", w := Gen.Epd1in54.ALIAS_W, h := Gen.Epd1in54.ALIAS_H, bwr := Gen.Epd1in54.ALIAS_BWR,
-    bytecount := Gen.Epd1in54.ALIAS_BYTECOUNT, kind := Gen.Epd1in54.ALIAS_KIND, drvW := Gen.Epd1in54_v2.WIDTH, drvH := Gen.Epd1in54_v2.HEIGHT },
+    bytecount := Gen.Epd1in54.ALIAS_BYTECOUNT, kind := Gen.Epd1in54.ALIAS_KIND, kindCode := Gen.Epd1in54.ALIAS_KIND_CODE, drvW := Gen.Epd1in54_v2.WIDTH, drvH := Gen.Epd1in54_v2.HEIGHT },
   { panel := "epd1in54b", w := Gen.Epd1in54b.ALIAS_W, h := Gen.Epd1in54b.ALIAS_H, bwr := Gen.Epd1in54b.ALIAS_BWR,
-    bytecount := Gen.Epd1in54b.ALIAS_BYTECOUNT, kind := Gen.Epd1in54b.ALIAS_KIND, drvW := Gen.Epd1in54b.WIDTH, drvH := Gen.Epd1in54b.HEIGHT },
+    bytecount := Gen.Epd1in54b.ALIAS_BYTECOUNT, kind := Gen.Epd1in54b.ALIAS_KIND, kindCode := Gen.Epd1in54b.ALIAS_KIND_CODE, drvW := Gen.Epd1in54b.WIDTH, drvH := Gen.Epd1in54b.HEIGHT },
   { panel := "epd1in54c", w := Gen.Epd1in54c.ALIAS_W, h := Gen.Epd1in54c.ALIAS_H, bwr := Gen.Epd1in54c.ALIAS_BWR,
-    bytecount := Gen.Epd1in54c.ALIAS_BYTECOUNT, kind := Gen.Epd1in54c.ALIAS_KIND, drvW := Gen.Epd1in54c.WIDTH, drvH := Gen.Epd1in54c.HEIGHT },
+    bytecount := Gen.Epd1in54c.ALIAS_BYTECOUNT, kind := Gen.Epd1in54c.ALIAS_KIND, kindCode := Gen.Epd1in54c.ALIAS_KIND_CODE, drvW := Gen.Epd1in54c.WIDTH, drvH := Gen.Epd1in54c.HEIGHT },
   { panel := "epd2in13_v2", w := Gen.Epd2in13_v2.ALIAS_W, h := Gen.Epd2in13_v2.ALIAS_H, bwr := Gen.Epd2in13_v2.ALIAS_BWR,
-    bytecount := Gen.Epd2in13_v2.ALIAS_BYTECOUNT, kind := Gen.Epd2in13_v2.ALIAS_KIND, drvW := Gen.Epd2in13_v2.WIDTH, drvH := Gen.Epd2in13_v2.HEIGHT },
+    bytecount := Gen.Epd2in13_v2.ALIAS_BYTECOUNT, kind := Gen.Epd2in13_v2.ALIAS_KIND, kindCode := Gen.Epd2in13_v2.ALIAS_KIND_CODE, drvW := Gen.Epd2in13_v2.WIDTH, drvH := Gen.Epd2in13_v2.HEIGHT },
   { panel := "epd2in13b_v4", w := Gen.Epd2in13b_v4.ALIAS_W, h := Gen.Epd2in13b_v4.ALIAS_H, bwr := Gen.Epd2in13b_v4.ALIAS_BWR,
-    bytecount := Gen.Epd2in13b_v4.ALIAS_BYTECOUNT, kind := Gen.Epd2in13b_v4.ALIAS_KIND, drvW := Gen.Epd2in13b_v4.WIDTH, drvH := Gen.Epd2in13b_v4.HEIGHT },
+    bytecount := Gen.Epd2in13b_v4.ALIAS_BYTECOUNT, kind := Gen.Epd2in13b_v4.ALIAS_KIND, kindCode := Gen.Epd2in13b_v4.ALIAS_KIND_CODE, drvW := Gen.Epd2in13b_v4.WIDTH, drvH := Gen.Epd2in13b_v4.HEIGHT },
   { panel := "epd2in13bc", w := Gen.Epd2in13bc.ALIAS_W, h := Gen.Epd2in13bc.ALIAS_H, bwr := Gen.Epd2in13bc.ALIAS_BWR,
-    bytecount := Gen.Epd2in13bc.ALIAS_BYTECOUNT, kind := Gen.Epd2in13bc.ALIAS_KIND, drvW := Gen.Epd2in13bc.WIDTH, drvH := Gen.Epd2in13bc.HEIGHT },
+    bytecount := Gen.Epd2in13bc.ALIAS_BYTECOUNT, kind := Gen.Epd2in13bc.ALIAS_KIND, kindCode := Gen.Epd2in13bc.ALIAS_KIND_CODE, drvW := Gen.Epd2in13bc.WIDTH, drvH := Gen.Epd2in13bc.HEIGHT },
   { panel := "epd2in66b", w := Gen.Epd2in66b.ALIAS_W, h := Gen.Epd2in66b.ALIAS_H, bwr := Gen.Epd2in66b.ALIAS_BWR,
-    bytecount := Gen.Epd2in66b.ALIAS_BYTECOUNT, kind := Gen.Epd2in66b.ALIAS_KIND, drvW := Gen.Epd2in66b.WIDTH, drvH := Gen.Epd2in66b.HEIGHT },
+    bytecount := Gen.Epd2in66b.ALIAS_BYTECOUNT, kind := Gen.Epd2in66b.ALIAS_KIND, kindCode := Gen.Epd2in66b.ALIAS_KIND_CODE, drvW := Gen.Epd2in66b.WIDTH, drvH := Gen.Epd2in66b.HEIGHT },
   { panel := "epd2in7", w := Gen.Epd2in7.ALIAS_W, h := Gen.Epd2in7.ALIAS_H, bwr := Gen.Epd2in7.ALIAS_BWR,
-    bytecount := Gen.Epd2in7.ALIAS_BYTECOUNT, kind := Gen.Epd2in7.ALIAS_KIND, drvW := Gen.Epd2in7.WIDTH, drvH := Gen.Epd2in7.HEIGHT },
+    bytecount := Gen.Epd2in7.ALIAS_BYTECOUNT, kind := Gen.Epd2in7.ALIAS_KIND, kindCode := Gen.Epd2in7.ALIAS_KIND_CODE, drvW := Gen.Epd2in7.WIDTH, drvH := Gen.Epd2in7.HEIGHT },
   { panel := "epd2in7_v2", w := Gen.Epd2in7_v2.ALIAS_W, h := Gen.Epd2in7_v2.ALIAS_H, bwr := Gen.Epd2in7_v2.ALIAS_BWR,
-    bytecount := Gen.Epd2in7_v2.ALIAS_BYTECOUNT, kind := Gen.Epd2in7_v2.ALIAS_KIND, drvW := Gen.Epd2in7_v2.WIDTH, drvH := Gen.Epd2in7_v2.HEIGHT },
+    bytecount := Gen.Epd2in7_v2.ALIAS_BYTECOUNT, kind := Gen.Epd2in7_v2.ALIAS_KIND, kindCode := Gen.Epd2in7_v2.ALIAS_KIND_CODE, drvW := Gen.Epd2in7_v2.WIDTH, drvH := Gen.Epd2in7_v2.HEIGHT },
   { panel := "epd2in7b", w := Gen.Epd2in7b.ALIAS_W, h := Gen.Epd2in7b.ALIAS_H, bwr := Gen.Epd2in7b.ALIAS_BWR,
-    bytecount := Gen.Epd2in7b.ALIAS_BYTECOUNT, kind := Gen.Epd2in7b.ALIAS_KIND, drvW := Gen.Epd2in7b.WIDTH, drvH := Gen.Epd2in7b.HEIGHT },
+    bytecount := Gen.Epd2in7b.ALIAS_BYTECOUNT, kind := Gen.Epd2in7b.ALIAS_KIND, kindCode := Gen.Epd2in7b.ALIAS_KIND_CODE, drvW := Gen.Epd2in7b.WIDTH, drvH := Gen.Epd2in7b.HEIGHT },
   { panel := "epd2in9", w := Gen.Epd2in9.ALIAS_W, h := Gen.Epd2in9.ALIAS_H, bwr := Gen.Epd2in9.ALIAS_BWR,
-    bytecount := Gen.Epd2in9.ALIAS_BYTECOUNT, kind := Gen.Epd2in9.ALIAS_KIND, drvW := Gen.Epd2in9.WIDTH, drvH := Gen.Epd2in9.HEIGHT },
+    bytecount := Gen.Epd2in9.ALIAS_BYTECOUNT, kind := Gen.Epd2in9.ALIAS_KIND, kindCode := Gen.Epd2in9.ALIAS_KIND_CODE, drvW := Gen.Epd2in9.WIDTH, drvH := Gen.Epd2in9.HEIGHT },
   { panel := "epd2in9_v2", w := Gen.Epd2in9_v2.ALIAS_W, h := Gen.Epd2in9_v2.ALIAS_H, bwr := Gen.Epd2in9_v2.ALIAS_BWR,
-    bytecount := Gen.Epd2in9_v2.ALIAS_BYTECOUNT, kind := Gen.Epd2in9_v2.ALIAS_KIND, drvW := Gen.Epd2in9_v2.WIDTH, drvH := Gen.Epd2in9_v2.HEIGHT },
+    bytecount := Gen.Epd2in9_v2.ALIAS_BYTECOUNT, kind := Gen.Epd2in9_v2.ALIAS_KIND, kindCode := Gen.Epd2in9_v2.ALIAS_KIND_CODE, drvW := Gen.Epd2in9_v2.WIDTH, drvH := Gen.Epd2in9_v2.HEIGHT },
   { panel := "epd2in9b_v4", w := Gen.Epd2in9b_v4.ALIAS_W, h := Gen.Epd2in9b_v4.ALIAS_H, bwr := Gen.Epd2in9b_v4.ALIAS_BWR,
-    bytecount := Gen.Epd2in9b_v4.ALIAS_BYTECOUNT, kind := Gen.Epd2in9b_v4.ALIAS_KIND, drvW := Gen.Epd2in9b_v4.WIDTH, drvH := Gen.Epd2in9b_v4.HEIGHT },
+    bytecount := Gen.Epd2in9b_v4.ALIAS_BYTECOUNT, kind := Gen.Epd2in9b_v4.ALIAS_KIND, kindCode := Gen.Epd2in9b_v4.ALIAS_KIND_CODE, drvW := Gen.Epd2in9b_v4.WIDTH, drvH := Gen.Epd2in9b_v4.HEIGHT },
   { panel := "epd2in9bc", w := Gen.Epd2in9bc.ALIAS_W, h := Gen.Epd2in9bc.ALIAS_H, bwr := Gen.Epd2in9bc.ALIAS_BWR,
-    bytecount := Gen.Epd2in9bc.ALIAS_BYTECOUNT, kind := Gen.Epd2in9bc.ALIAS_KIND, drvW := Gen.Epd2in9bc.WIDTH, drvH := Gen.Epd2in9bc.HEIGHT },
+    bytecount := Gen.Epd2in9bc.ALIAS_BYTECOUNT, kind := Gen.Epd2in9bc.ALIAS_KIND, kindCode := Gen.Epd2in9bc.ALIAS_KIND_CODE, drvW := Gen.Epd2in9bc.WIDTH, drvH := Gen.Epd2in9bc.HEIGHT },
   { panel := "epd2in9d", w := Gen.Epd2in9d.ALIAS_W, h := Gen.Epd2in9d.ALIAS_H, bwr := Gen.Epd2in9d.ALIAS_BWR,
-    bytecount := Gen.Epd2in9d.ALIAS_BYTECOUNT, kind := Gen.Epd2in9d.ALIAS_KIND, drvW := Gen.Epd2in9d.WIDTH, drvH := Gen.Epd2in9d.HEIGHT },
+    bytecount := Gen.Epd2in9d.ALIAS_BYTECOUNT, kind := Gen.Epd2in9d.ALIAS_KIND, kindCode := Gen.Epd2in9d.ALIAS_KIND_CODE, drvW := Gen.Epd2in9d.WIDTH, drvH := Gen.Epd2in9d.HEIGHT },
   { panel := "epd3in7", w := Gen.Epd3in7.ALIAS_W, h := Gen.Epd3in7.ALIAS_H, bwr := Gen.Epd3in7.ALIAS_BWR,
-    bytecount := Gen.Epd3in7.ALIAS_BYTECOUNT, kind := Gen.Epd3in7.ALIAS_KIND, drvW := Gen.Epd3in7.WIDTH, drvH := Gen.Epd3in7.HEIGHT },
+    bytecount := Gen.Epd3in7.ALIAS_BYTECOUNT, kind := Gen.Epd3in7.ALIAS_KIND, kindCode := Gen.Epd3in7.ALIAS_KIND_CODE, drvW := Gen.Epd3in7.WIDTH, drvH := Gen.Epd3in7.HEIGHT },
   { panel := "epd4in2", w := Gen.Epd4in2.ALIAS_W, h := Gen.Epd4in2.ALIAS_H, bwr := Gen.Epd4in2.ALIAS_BWR,
-    bytecount := Gen.Epd4in2.ALIAS_BYTECOUNT, kind := Gen.Epd4in2.ALIAS_KIND, drvW := Gen.Epd4in2.WIDTH, drvH := Gen.Epd4in2.HEIGHT },
+    bytecount := Gen.Epd4in2.ALIAS_BYTECOUNT, kind := Gen.Epd4in2.ALIAS_KIND, kindCode := Gen.Epd4in2.ALIAS_KIND_CODE, drvW := Gen.Epd4in2.WIDTH, drvH := Gen.Epd4in2.HEIGHT },
   { panel := "epd5in65f", w := Gen.Epd5in65f.ALIAS_W, h := Gen.Epd5in65f.ALIAS_H, bwr := Gen.Epd5in65f.ALIAS_BWR,
-    bytecount := Gen.Epd5in65f.ALIAS_BYTECOUNT, kind := Gen.Epd5in65f.ALIAS_KIND, drvW := Gen.Epd5in65f.WIDTH, drvH := Gen.Epd5in65f.HEIGHT },
+    bytecount := Gen.Epd5in65f.ALIAS_BYTECOUNT, kind := Gen.Epd5in65f.ALIAS_KIND, kindCode := Gen.Epd5in65f.ALIAS_KIND_CODE, drvW := Gen.Epd5in65f.WIDTH, drvH := Gen.Epd5in65f.HEIGHT },
   { panel := "epd5in83_v2", w := Gen.Epd5in83_v2.ALIAS_W, h := Gen.Epd5in83_v2.ALIAS_H, bwr := Gen.Epd5in83_v2.ALIAS_BWR,
-    bytecount := Gen.Epd5in83_v2.ALIAS_BYTECOUNT, kind := Gen.Epd5in83_v2.ALIAS_KIND, drvW := Gen.Epd5in83_v2.WIDTH, drvH := Gen.Epd5in83_v2.HEIGHT },
+    bytecount := Gen.Epd5in83_v2.ALIAS_BYTECOUNT, kind := Gen.Epd5in83_v2.ALIAS_KIND, kindCode := Gen.Epd5in83_v2.ALIAS_KIND_CODE, drvW := Gen.Epd5in83_v2.WIDTH, drvH := Gen.Epd5in83_v2.HEIGHT },
   { panel := "epd5in83b_v2", w := Gen.Epd5in83b_v2.ALIAS_W, h := Gen.Epd5in83b_v2.ALIAS_H, bwr := Gen.Epd5in83b_v2.ALIAS_BWR,
-    bytecount := Gen.Epd5in83b_v2.ALIAS_BYTECOUNT, kind := Gen.Epd5in83b_v2.ALIAS_KIND, drvW := Gen.Epd5in83b_v2.WIDTH, drvH := Gen.Epd5in83b_v2.HEIGHT },
+    bytecount := Gen.Epd5in83b_v2.ALIAS_BYTECOUNT, kind := Gen.Epd5in83b_v2.ALIAS_KIND, kindCode := Gen.Epd5in83b_v2.ALIAS_KIND_CODE, drvW := Gen.Epd5in83b_v2.WIDTH, drvH := Gen.Epd5in83b_v2.HEIGHT },
   { panel := "epd7in3f", w := Gen.Epd7in3f.ALIAS_W, h := Gen.Epd7in3f.ALIAS_H, bwr := Gen.Epd7in3f.ALIAS_BWR,
-    bytecount := Gen.Epd7in3f.ALIAS_BYTECOUNT, kind := Gen.Epd7in3f.ALIAS_KIND, drvW := Gen.Epd7in3f.WIDTH, drvH := Gen.Epd7in3f.HEIGHT },
+    bytecount := Gen.Epd7in3f.ALIAS_BYTECOUNT, kind := Gen.Epd7in3f.ALIAS_KIND, kindCode := Gen.Epd7in3f.ALIAS_KIND_CODE, drvW := Gen.Epd7in3f.WIDTH, drvH := Gen.Epd7in3f.HEIGHT },
   { panel := "epd7in5", w := Gen.Epd7in5.ALIAS_W, h := Gen.Epd7in5.ALIAS_H, bwr := Gen.Epd7in5.ALIAS_BWR,
-    bytecount := Gen.Epd7in5.ALIAS_BYTECOUNT, kind := Gen.Epd7in5.ALIAS_KIND, drvW := Gen.Epd7in5.WIDTH, drvH := Gen.Epd7in5.HEIGHT },
+    bytecount := Gen.Epd7in5.ALIAS_BYTECOUNT, kind := Gen.Epd7in5.ALIAS_KIND, kindCode := Gen.Epd7in5.ALIAS_KIND_CODE, drvW := Gen.Epd7in5.WIDTH, drvH := Gen.Epd7in5.HEIGHT },
   { panel := "epd7in5_hd", w := Gen.Epd7in5_hd.ALIAS_W, h := Gen.Epd7in5_hd.ALIAS_H, bwr := Gen.Epd7in5_hd.ALIAS_BWR,
-    bytecount := Gen.Epd7in5_hd.ALIAS_BYTECOUNT, kind := Gen.Epd7in5_hd.ALIAS_KIND, drvW := Gen.Epd7in5_hd.WIDTH, drvH := Gen.Epd7in5_hd.HEIGHT },
+    bytecount := Gen.Epd7in5_hd.ALIAS_BYTECOUNT, kind := Gen.Epd7in5_hd.ALIAS_KIND, kindCode := Gen.Epd7in5_hd.ALIAS_KIND_CODE, drvW := Gen.Epd7in5_hd.WIDTH, drvH := Gen.Epd7in5_hd.HEIGHT },
   { panel := "epd7in5_v2", w := Gen.Epd7in5_v2.ALIAS_W, h := Gen.Epd7in5_v2.ALIAS_H, bwr := Gen.Epd7in5_v2.ALIAS_BWR,
-    bytecount := Gen.Epd7in5_v2.ALIAS_BYTECOUNT, kind := Gen.Epd7in5_v2.ALIAS_KIND, drvW := Gen.Epd7in5_v2.WIDTH, drvH := Gen.Epd7in5_v2.HEIGHT },
+    bytecount := Gen.Epd7in5_v2.ALIAS_BYTECOUNT, kind := Gen.Epd7in5_v2.ALIAS_KIND, kindCode := Gen.Epd7in5_v2.ALIAS_KIND_CODE, drvW := Gen.Epd7in5_v2.WIDTH, drvH := Gen.Epd7in5_v2.HEIGHT },
   { panel := "epd7in5b_v2", w := Gen.Epd7in5b_v2.ALIAS_W, h := Gen.Epd7in5b_v2.ALIAS_H, bwr := Gen.Epd7in5b_v2.ALIAS_BWR,
-    bytecount := Gen.Epd7in5b_v2.ALIAS_BYTECOUNT, kind := Gen.Epd7in5b_v2.ALIAS_KIND, drvW := Gen.Epd7in5b_v2.WIDTH, drvH := Gen.Epd7in5b_v2.HEIGHT } ]
+    bytecount := Gen.Epd7in5b_v2.ALIAS_BYTECOUNT, kind := Gen.Epd7in5b_v2.ALIAS_KIND, kindCode := Gen.Epd7in5b_v2.ALIAS_KIND_CODE, drvW := Gen.Epd7in5b_v2.WIDTH, drvH := Gen.Epd7in5b_v2.HEIGHT } ]
 
 end EpdVerif
